@@ -316,5 +316,91 @@ class WheelStream(Stream):
         return []
 
 
+class RebuiltInPlace(Stream):
+    """history inside one process: a wheel is read, then another wheel (a rebuild with other requirements and version, or
+    the complete file after a truncated one) is written under the same path and read again: every reading is of the file
+    that is there"""
+    name = "rebuilt-in-place"
+    quick_n = 150
+    thorough_n = 6000
+    batch = 50
+
+    def setup(self):
+        import tempfile
+        self.tmp = tempfile.mkdtemp(prefix="rvc11r")
+
+    def teardown(self):
+        import shutil
+        shutil.rmtree(getattr(self, "tmp", ""), ignore_errors=True)
+
+    def generate(self, rng):
+        gens = []
+        for i in range(rng.randint(2, 4)):
+            k = rng.random()
+            if k < 0.2:
+                gens.append({"kind": "truncated"})
+            else:
+                gens.append({"kind": "wheel", "requires": rng.sample(["dep-a", "dep-b>=1", "dep-c<2", "dep-d"], rng.randint(0, 2)),
+                             "meta_version": rng.choice(["1.0", "1.0", "1.0.post" + str(i)])})
+        return {"gens": gens, "via": rng.choice(["extract_metadata", "find-links"])}
+
+    def impl(self, case):
+        import os
+        import shutil
+        from rv import backends as B
+        from rv.core import digest
+        from req_compile.errors import MetadataError
+        import req_compile.metadata
+        d = os.path.join(self.tmp, digest(case))
+        os.makedirs(d, exist_ok=True)
+        path = os.path.join(d, B.wheel_name("foo", "1.0"))
+        out = []
+        for g in case["gens"]:
+            data = B.wheel_bytes("foo", g.get("meta_version", "1.0"), requires=g.get("requires", []))
+            if g["kind"] == "truncated":
+                data = data[: len(data) // 3]
+            with open(path, "wb") as f:
+                f.write(data)
+            try:
+                if case["via"] == "find-links":
+                    from req_compile.repos.findlinks import FindLinksRepository
+                    from req_compile.utils import parse_requirement
+                    repo = FindLinksRepository(d)
+                    cands = list(repo.get_candidates(parse_requirement("foo")))
+                    r, _ = repo.resolve_candidate(cands[0])
+                else:
+                    r = req_compile.metadata.extract_metadata(path)
+                out.append({"version": str(r.version), "reqs": sorted(str(q) for q in r.reqs)})
+            except MetadataError:
+                out.append({"error": "MetadataError"})
+            except Exception as ex:
+                out.append({"error": type(ex).__name__})
+        shutil.rmtree(d, ignore_errors=True)
+        return {"read": out}
+
+    def flags(self, case, r):
+        fl = ["via:" + case["via"]]
+        if any(g["kind"] == "truncated" for g in case["gens"]):
+            fl.append("a-truncated-generation")
+        return fl
+
+    def oracle(self, case, r):
+        from rv import graphlib as GL
+        for i, (g, got) in enumerate(zip(case["gens"], r["read"])):
+            if g["kind"] == "truncated":
+                if "error" not in got:
+                    return [("C11/truncated-wheel-read-as-a-distribution", {"generation": i, "read": got})]
+                continue
+            want = {"version": str(GL.V(g["meta_version"])), "reqs": sorted(str(GL.P(t)) for t in g["requires"])}
+            if got != want:
+                return [("C11/reading-is-of-an-earlier-file-under-the-same-path", {"generation": i, "in_the_file": want, "read": got})]
+        return []
+
+    def shrink(self, case):
+        for i in range(len(case["gens"])):
+            if len(case["gens"]) > 1:
+                yield dict(case, gens=case["gens"][:i] + case["gens"][i + 1:])
+
+
 def streams():
-    return [TextStream(), WheelStream()]
+    return [TextStream(), WheelStream(), RebuiltInPlace()]
